@@ -131,6 +131,13 @@ func replay(p *props.Prop) int {
 		fmt.Printf("INCONCLUSIVE property=%s reason=replay-phase-out-of-range\n", p.ID)
 		return 2
 	}
+	if v.Env == props.EnvEastAsian {
+		// the case first runs with the setting off (as it did earlier in the process), judged by a recorder nobody reads
+		warm := *c
+		warm.Rec = ev.NewRecorder(p.ID, 0, v.Tier, v.Seed, known(p.ID), out)
+		props.RunCase(&warm, v.Phase, v.Index)
+		props.SwitchEastAsianWidth(c)
+	}
 	props.RunCase(c, v.Phase, v.Index)
 	res := rec.Result()
 	for k, n := range res.Known {
